@@ -41,8 +41,9 @@ theorem x_or_asterisk_eq (s : List Char) :
   cases s with
   | nil => simp [lit_nil]
   | cons d t =>
+    -- in whatever order the three literals are tried
     by_cases h1 : d = 'x'
-    · subst h1; simp [lit_eq]
+    · subst h1; simp [lit_eq, lit_ne]
     · by_cases h2 : d = 'X'
       · subst h2; simp [lit_eq, lit_ne]
       · by_cases h3 : d = '*'
